@@ -61,6 +61,8 @@ def run(ctx, families, monitor_ids, extra_scenarios=(), classify=None, model=Tru
     bad = machine_corr.compare(scs, impl, ctx.casedir) if model else []
     for (i, it, mt, note) in bad:
         ctx.mismatch(tags[i], scs[i], it, mt, note)
+    if model:
+        ctx.bump('not_predicted_by_model(suspension during close)', len(machine_corr.UNMODELLED))
     # --- monitors on the implementation
     for i, (sc, (tr, info)) in enumerate(zip(scs, impl)):
         for mid in monitor_ids:
